@@ -33,7 +33,6 @@ func c02Failf(format string, args ...interface{}) error {
 // c02Alt collects the alternative outcomes the documentation leaves open (DESIGN Appendix A, rows marked T).
 // The evaluator is run once per combination of choices; the implementation must match one of them.
 type c02Choices struct {
-	KeptNullContainerAsEmpty bool // kept object/array without content: {} / [] instead of null
 	DynamicFailureIsNoMatch  bool // xpath_dynamic that fails or is blank: "no match" instead of record failure
 	ArgFailureIgnored        bool // failing argument under ignore_error: nil instead of record failure
 }
@@ -91,9 +90,16 @@ func c02Text(n *idr.Node) string {
 	return b.String()
 }
 
+// c02KeptEmpty is the value of an object / array that produced nothing but carries keep_empty_or_null (and of
+// an anchored object whose anchor did not match): the documentation says {} / [], the long-standing behaviour
+// is null for some of them; the comparison accepts null, {} and [] at such a position (DESIGN Appendix A rows 7, 8).
+type c02KeptEmpty struct{}
+
 func c02IsEmpty(v interface{}) bool {
 	switch t := v.(type) {
 	case nil:
+		return true
+	case c02KeptEmpty:
 		return true
 	case string:
 		return t == ""
@@ -225,10 +231,7 @@ func (m *c02Model) eval(decl c02Map, cur *idr.Node, underArray, isFinal bool) (i
 				return nil, nil
 			}
 			m.usedT["kept-empty-container"] = true
-			if m.ch.KeptNullContainerAsEmpty {
-				return c02Map{}, nil
-			}
-			return nil, nil // caller keeps a null
+			return c02KeptEmpty{}, nil
 		}
 		return out, nil
 	case decl["array"] != nil:
@@ -269,10 +272,7 @@ func (m *c02Model) eval(decl c02Map, cur *idr.Node, underArray, isFinal bool) (i
 				return nil, nil
 			}
 			m.usedT["kept-empty-container"] = true
-			if m.ch.KeptNullContainerAsEmpty {
-				return []interface{}{}, nil
-			}
-			return nil, nil
+			return c02KeptEmpty{}, nil
 		}
 		return out, nil
 	default: // field
@@ -284,6 +284,9 @@ func (m *c02Model) eval(decl c02Map, cur *idr.Node, underArray, isFinal bool) (i
 func (m *c02Model) normalize(decl c02Map, v interface{}) (interface{}, error) {
 	if v == nil {
 		return nil, nil
+	}
+	if _, ok := v.(c02KeptEmpty); ok {
+		return v, nil
 	}
 	noTrim, _ := decl["no_trim"].(bool)
 	if s, ok := v.(string); ok && !noTrim {
@@ -454,4 +457,47 @@ func c02Call(name string, cur *idr.Node, args []interface{}) (interface{}, error
 		return wrap(v21.JavaScript(nil, js, args[1:]...))
 	}
 	return nil, fmt.Errorf("harness: function %q not in the model's table", name)
+}
+
+// c02Same compares a model value with a decoded (UseNumber) output value.
+func c02Same(want, got interface{}) bool {
+	switch w := want.(type) {
+	case c02KeptEmpty:
+		switch g := got.(type) {
+		case nil:
+			return true
+		case map[string]interface{}:
+			return len(g) == 0
+		case []interface{}:
+			return len(g) == 0
+		}
+		return false
+	case c02Map:
+		g, ok := got.(map[string]interface{})
+		if !ok || len(g) != len(w) {
+			return false
+		}
+		for k, wv := range w {
+			gv, ok := g[k]
+			if !ok || !c02Same(wv, gv) {
+				return false
+			}
+		}
+		return true
+	case []interface{}:
+		g, ok := got.([]interface{})
+		if !ok || len(g) != len(w) {
+			return false
+		}
+		for i := range w {
+			if !c02Same(w[i], g[i]) {
+				return false
+			}
+		}
+		return true
+	case nil:
+		return got == nil
+	default:
+		return c02Canon(want) == c02Canon(got)
+	}
 }
